@@ -18,9 +18,15 @@ use wac_parser::Document;
 use wasmparser::component_types::{ComponentAnyTypeId, ComponentEntityType};
 
 fn wd(version: &str) -> String {
+    wd_with(version, "")
+}
+
+/// `extra` = additional items of interface `ia` (a component built against the wider `ia` needs
+/// more than the world's `ia` offers when it imports it, and offers more when it exports it).
+fn wd_with(version: &str, extra: &str) -> String {
     format!(
         r#"package t:wd@{version};
-interface ia {{ record r {{ a: u32 }} fa: func(x: r); }}
+interface ia {{ record r {{ a: u32 }} fa: func(x: r); {extra} }}
 interface ib {{ use ia.{{r}}; fb: func() -> r; }}
 interface ic {{ fc: func(); }}
 world w1 {{ import f: func(); export g: func(); }}
@@ -71,6 +77,8 @@ pub enum Expect {
     Fails(&'static str),
     /// the statement does not decide (semver-compatible but different version names)
     Unspecified,
+    /// generated composition: the reference validator's verdict is the expectation
+    Generated,
 }
 
 pub fn cases() -> Vec<Case> {
@@ -125,6 +133,116 @@ pub fn cases() -> Vec<Case> {
     v
 }
 
+
+// ------------------------------------------------------------------ generated family
+//
+// Every ordered list of 1..k components of the library, all arguments left implicit, with the
+// world's exports taken from the first (mode A) or last (mode C) instance offering them, or
+// with additional exports (mode B), against every world. No hand-written expectation: the
+// reference validator's verdict (output <= world) decides, and resolution and the stand-alone
+// check must both agree with it.
+
+fn export_names(lib: &Lib) -> BTreeMap<String, Vec<String>> {
+    let mut out = BTreeMap::new();
+    for ((n, _), b) in &lib.bytes {
+        if n == "t:wd" {
+            continue;
+        }
+        let mut types = Types::default();
+        let p = Package::from_bytes(n, None, b.clone(), &mut types).unwrap_or_else(|e| mc_core::machinery_error(&format!("C11 library {n}: {e}")));
+        out.insert(n.clone(), types[p.ty()].exports.keys().cloned().collect());
+    }
+    out
+}
+
+const WORLD_EXPORTS: [(&str, &[&str]); 7] = [
+    ("w1", &["g"]),
+    ("w2", &["t:wd/ic@1.0.0"]),
+    ("w3", &["g"]),
+    ("w4", &["g", "t:wd/ia@1.0.0"]),
+    ("w5", &["g"]),
+    ("w6", &["g"]),
+    ("w7", &["g", "k"]),
+];
+
+fn export_stmt(inst: usize, name: &str) -> String {
+    if name.contains(':') {
+        format!("export c{inst}[\"{name}\"] as \"{name}\";\n")
+    } else {
+        format!("export c{inst}.{name};\n")
+    }
+}
+
+pub fn generated(lib: &Lib, max_len: usize) -> Vec<Case> {
+    let exports = export_names(lib);
+    let names: Vec<&String> = exports.keys().collect();
+    let mut lists: Vec<Vec<usize>> = Vec::new();
+    let mut cur: Vec<Vec<usize>> = vec![vec![]];
+    for _ in 0..max_len {
+        let mut next = Vec::new();
+        for l in &cur {
+            for i in 0..names.len() {
+                let mut m = l.clone();
+                m.push(i);
+                next.push(m);
+            }
+        }
+        lists.extend(next.iter().cloned());
+        cur = next;
+    }
+    let mut v = Vec::new();
+    for (world, wex) in WORLD_EXPORTS {
+        for l in &lists {
+            let mut body = String::new();
+            for (k, i) in l.iter().enumerate() {
+                body.push_str(&format!("let c{k} = new {} {{ ... }};\n", names[*i]));
+            }
+            let provider = |name: &str, last: bool| -> Option<usize> {
+                let mut it = l.iter().enumerate().filter(|(_, i)| exports[names[**i]].iter().any(|e| e == name)).map(|(k, _)| k);
+                if last {
+                    it.last()
+                } else {
+                    it.next()
+                }
+            };
+            let mut a = String::new();
+            let mut c = String::new();
+            for name in wex {
+                if let Some(k) = provider(name, false) {
+                    a.push_str(&export_stmt(k, name));
+                }
+                if let Some(k) = provider(name, true) {
+                    c.push_str(&export_stmt(k, name));
+                }
+            }
+            let mut b = a.clone();
+            for e in &exports[names[l[0]]] {
+                if !wex.contains(&e.as_str()) {
+                    b.push_str(&export_stmt(0, e));
+                }
+            }
+            let mut modes = vec![("A", a.clone())];
+            if b != a {
+                modes.push(("B", b));
+            }
+            if c != a {
+                modes.push(("C", c));
+            }
+            let version_case = l.iter().any(|i| names[*i].ends_with("v11"));
+            for (m, ex) in modes {
+                let variant: &'static str = Box::leak(format!("gen/{}/{m}", l.iter().map(|i| names[*i].trim_start_matches("t:")).collect::<Vec<_>>().join("+")).into_boxed_str());
+                v.push(Case {
+                    world,
+                    variant,
+                    doc: format!("package t:doc targets t:wd/{world}@1.0.0;\n{body}{ex}"),
+                    expect: if version_case { Expect::Unspecified } else { Expect::Generated },
+                });
+            }
+        }
+    }
+    v
+}
+
 fn class(e: &wac_parser::resolution::Error) -> &'static str {
     use wac_parser::resolution::Error as E;
     match e {
@@ -157,6 +275,17 @@ pub fn library() -> Lib {
     bytes.insert(("t:c2v11".to_string(), None), b);
     let b = component_from_wit(&[("wd.wit", &wd11), ("impls.wit", &imp11)], "c4").expect("c4v11");
     bytes.insert(("t:c4v11".to_string(), None), b);
+    // built against a wider `ia` (one more function): as an importer it needs more than the
+    // world offers, as an exporter it offers more than the world asks for
+    let wide = wd_with("1.0.0", "fa2: func();");
+    for (w, name) in [("c2", "c2wide"), ("c3", "c3wide"), ("c4", "c4wide"), ("c-ia-exporter", "c-ia-exporter-wide")] {
+        let b = component_from_wit(&[("wd.wit", &wide), ("impls.wit", &imp)], w).unwrap_or_else(|e| panic!("{name}: {e:?}"));
+        bytes.insert((format!("t:{name}"), None), b);
+    }
+    // ... and against an `ia` whose function is retyped (conflicts with the world's when merged)
+    let retyped = wd("1.0.0").replace("fa: func(x: r);", "fa: func(x: r, y: u8);");
+    let b = component_from_wit(&[("wd.wit", &retyped), ("impls.wit", &imp)], "c2").expect("c2retyped");
+    bytes.insert(("t:c2retyped".to_string(), None), b);
     Lib { bytes, wd: wd_bin }
 }
 
@@ -165,7 +294,11 @@ type Viol = (String, String);
 pub fn check_case(lib: &Lib, c: &Case) -> (Vec<Viol>, String) {
     let mut v = Vec::new();
     // version cases share one cause (exact vs semver-aware name matching): one fingerprint family
-    let fam = if c.expect == Expect::Unspecified { "other-compatible-version".to_string() } else { format!("{}/{}", c.world, c.variant) };
+    let fam = match c.expect {
+        Expect::Unspecified => "other-compatible-version".to_string(),
+        Expect::Generated => "generated".to_string(),
+        _ => format!("{}/{}", c.world, c.variant),
+    };
     let doc = match Document::parse(&c.doc) {
         Ok(d) => d,
         Err(e) => mc_core::machinery_error(&format!("C11 document does not parse: {e}\n{}", c.doc)),
@@ -194,6 +327,10 @@ pub fn check_case(lib: &Lib, c: &Case) -> (Vec<Viol>, String) {
     }) {
         Ok(Ok(b)) => b,
         Ok(Err(e)) => {
+            if c.expect == Expect::Generated || c.variant.starts_with("gen/") {
+                // not a composition at all (conflicting imports, duplicate exports): no verdict
+                return (v, "not-a-composition".into());
+            }
             v.push((format!("C11/composition-does-not-encode/{fam}"), format!("{e}\n{plain_text}")));
             return (v, "error".into());
         }
@@ -222,8 +359,10 @@ pub fn check_case(lib: &Lib, c: &Case) -> (Vec<Viol>, String) {
                 }
             }
         },
-        Expect::Unspecified => {}
+        Expect::Unspecified | Expect::Generated => {}
     }
+    // the cause of a disagreement on a generated composition is the pair of verdicts, not the case
+    let fam = if c.expect == Expect::Generated { format!("generated/resolution-says-{got_class}") } else { fam };
     // (iii) stand-alone conformance check on the encoded output
     let standalone = catch(|| -> Result<bool, String> {
         let mut types = Types::default();
@@ -274,7 +413,10 @@ pub fn check_case(lib: &Lib, c: &Case) -> (Vec<Viol>, String) {
                 ));
             }
         }
-        if let Some(r) = verdict_reference {
+        // for semver-compatible but different version names the statement does not say whether
+        // the output conforms (the reference validator matches import names semver-aware and
+        // export names exactly): only wac's two verdicts are compared there
+        if let Some(r) = verdict_reference.filter(|_| c.expect != Expect::Unspecified) {
             if r != verdict_resolution {
                 v.push((
                     format!("C11/verdicts-differ/resolution-vs-reference-subtyping/{fam}"),
@@ -292,22 +434,37 @@ pub fn run(args: &[String]) {
     let all = cases();
     if let Some(case) = ctx.replay_case().cloned() {
         let (w, var) = (case["world"].as_str().unwrap(), case["variant"].as_str().unwrap());
-        let c = all.iter().find(|c| c.world == w && c.variant == var).unwrap_or_else(|| mc_core::machinery_error("unknown C11 case"));
+        let gen = generated(&lib, 4);
+        let c = all.iter().chain(gen.iter()).find(|c| c.world == w && c.variant == var).unwrap_or_else(|| mc_core::machinery_error("unknown C11 case"));
         for (fp, what) in check_case(&lib, c).0 {
             ctx.violation(fp, what, case.clone());
         }
         ctx.finish(Map::new(), vec![]);
     }
+    let table = all.len();
+    let mut all = all;
+    let max_len = ctx.tier().pick(3, 4);
+    all.extend(generated(&lib, max_len));
     let outs: Vec<(Vec<Viol>, String)> = all.par_iter().map(|c| check_case(&lib, c)).collect();
     let mut samples = Samples::new(3);
     let mut outcomes: BTreeMap<String, u64> = BTreeMap::new();
     let mut conforming = 0u64;
     let mut unspecified = 0u64;
+    let (mut not_composition, mut gen_conforming, mut gen_rejected) = (0u64, 0u64, 0u64);
     for (c, (v, outcome)) in all.iter().zip(outs) {
         *outcomes.entry(outcome.clone()).or_default() += 1;
         match c.expect {
             Expect::Conforms => conforming += 1,
             Expect::Unspecified => unspecified += 1,
+            Expect::Generated => {
+                if outcome == "not-a-composition" {
+                    not_composition += 1
+                } else if outcome.starts_with("Ok|") {
+                    gen_conforming += 1
+                } else {
+                    gen_rejected += 1
+                }
+            }
             _ => {}
         }
         samples.offer(|| json!({"world": c.world, "variant": c.variant, "document": c.doc, "outcome": outcome}));
@@ -317,17 +474,22 @@ pub fn run(args: &[String]) {
     }
     let mut cov = Map::new();
     cov.insert("evaluations".into(), json!(all.len()));
-    cov.insert("distinct_nontrivial".into(), json!(all.len() as u64 - unspecified));
+    cov.insert("distinct_nontrivial".into(), json!(all.len() as u64 - unspecified - not_composition));
+    cov.insert("hand_table_pairs".into(), json!(table));
+    cov.insert("generated_max_instantiations".into(), json!(max_len));
+    cov.insert("generated_accepted_by_all_three".into(), json!(gen_conforming));
+    cov.insert("generated_rejected".into(), json!(gen_rejected));
+    cov.insert("generated_not_a_composition".into(), json!(not_composition));
     cov.insert("samples".into(), json!(samples.items));
     cov.insert("exhaustive".into(), json!(true));
     cov.insert("worlds".into(), json!(7));
     cov.insert("conforming_compositions".into(), json!(conforming));
-    cov.insert("perturbed_compositions".into(), json!(all.len() as u64 - conforming - unspecified));
+    cov.insert("perturbed_compositions".into(), json!(table as u64 - conforming));
     cov.insert("unspecified_cases".into(), json!(unspecified));
     cov.insert("outcomes".into(), json!(outcomes));
     cov.insert(
         "rule".into(),
-        json!("7 worlds (function / interface / interface using another interface / versioned names; 0-2 imports, 1-2 exports) x {conforming compositions, one extra import (implicit, explicit, interface), one missing export, one type change in an import / export, fewer imports, more exports, other compatible version}; per pair: resolution verdict and diagnostic class vs the statement, stand-alone validate_target on the encoded output, and wasmparser component subtyping output <= world inside one wrapper; every pair is non-trivial except the unspecified version case"),
+        json!("7 worlds (function / interface / interface using another interface / versioned names; 0-2 imports, 1-2 exports) x {conforming compositions, one extra import (implicit, explicit, interface), one missing export, one type change in an import / export, fewer imports, more exports, other compatible version}; per pair: resolution verdict and diagnostic class vs the statement, stand-alone validate_target on the encoded output, and wasmparser component subtyping output <= world inside one wrapper; every pair is non-trivial except the unspecified version case. Generated family: 7 worlds x every ordered list of 1..k (quick 3, thorough 4) library components (21: the above plus components built against a wider / retyped `ia` and against t:wd@1.1.0), all arguments implicit, world exports taken from the first or the last instance offering them, or with every other export of the first instance added; no hand-written expectation: resolution, stand-alone validate_target and the reference validator's output <= world must agree"),
     );
     ctx.finish(
         cov,
